@@ -57,7 +57,7 @@ Emit ==
   pc = "done" =>
     PrintT("REPLAY " \o ToJson([group |-> "training", mode |-> Mode,
                                 p |-> [n |-> P.n, b |-> P.b, e |-> P.e, hasval |-> P.hasval, tol |-> P.tol,
-                                       nval |-> P.nval, flagged |-> P.flagged, workers |-> P.workers,
+                                       nval |-> P.nval, chunk |-> P.chunk, flagged |-> P.flagged, workers |-> P.workers,
                                        kinds |-> IF Mode = "flags" THEN P.kinds ELSE <<>>,
                                        print |-> IF Mode = "earlystop" THEN P.print ELSE 0],
                                 updates |-> w, train |-> trainLoss, val |-> valLoss, ran |-> Len(trainLoss)]))
